@@ -12,6 +12,7 @@ import (
 	"fmt"
 	"os"
 	"path/filepath"
+	"strconv"
 	"sync"
 	"time"
 
@@ -20,6 +21,7 @@ import (
 	"github.com/ozontech/file.d/pipeline"
 	"github.com/ozontech/file.d/plugin/action/join"
 	filein "github.com/ozontech/file.d/plugin/input/file"
+	k8smeta "github.com/ozontech/file.d/plugin/input/k8s/meta"
 	"github.com/ozontech/file.d/test"
 	"github.com/prometheus/client_golang/prometheus"
 	"go.uber.org/zap"
@@ -30,6 +32,9 @@ import (
 
 type helperCfg struct {
 	persist, procs, join, outKind, asyncMs, maintMs, readBuf, antispam int
+	// optional items 8..: workers_count (0 = "2"), should_watch_file_changes, remove_after (ms), max_event_size,
+	// cut_off_event_by_limit, k8s meta (the built-in meta templates of the k8s input: k8s_pod = {{ .pod_name }} ...)
+	workers, watchChanges, removeAfterMs, maxEventSize, cutOff, k8sMeta int
 }
 
 func decodeCfg(v hx.Sx) helperCfg {
@@ -40,7 +45,8 @@ func decodeCfg(v hx.Sx) helperCfg {
 		}
 		return 0
 	}
-	return helperCfg{persist: g(0), procs: g(1), join: g(2), outKind: g(3), asyncMs: g(4), maintMs: g(5), readBuf: g(6), antispam: g(7)}
+	return helperCfg{persist: g(0), procs: g(1), join: g(2), outKind: g(3), asyncMs: g(4), maintMs: g(5), readBuf: g(6), antispam: g(7),
+		workers: g(8), watchChanges: g(9), removeAfterMs: g(10), maxEventSize: g(11), cutOff: g(12), k8sMeta: g(13)}
 }
 
 type scriptedOut struct {
@@ -127,9 +133,13 @@ func helperMain() {
 	settings := &pipeline.Settings{
 		Capacity: 32, MaintenanceInterval: 5 * time.Second, EventTimeout: time.Duration(evTimeout) * time.Millisecond,
 		Antispam: pipeline.AntispamSettings{Threshold: anti}, AvgEventSize: 256, MetaCacheSize: 8, StreamField: "stream", Decoder: "json",
-		Metric: &pipeline.MetricSettings{HoldDuration: time.Minute, MaxLabelValueLength: 100},
+		Metric:       &pipeline.MetricSettings{HoldDuration: time.Minute, MaxLabelValueLength: 100},
+		MaxEventSize: hc.maxEventSize, CutOffEventByLimit: hc.cutOff == 1,
 	}
-	p := pipeline.New("c03", settings, prometheus.NewRegistry(), zap.NewNop())
+	// fatal messages only, on stderr (child<run>.err): zap's Fatal exits the process even through a Nop logger, and a silent
+	// exit(1) cannot be told from anything else
+	lg := zap.New(zapcore.NewCore(zapcore.NewConsoleEncoder(zap.NewDevelopmentEncoderConfig()), zapcore.Lock(os.Stderr), zapcore.FatalLevel))
+	p := pipeline.New("c03", settings, prometheus.NewRegistry(), lg)
 	if hc.procs <= 1 {
 		p.DisableParallelism()
 	}
@@ -144,8 +154,20 @@ func helperMain() {
 		PersistenceMode:     mode,
 		AsyncInterval:       cfg.Duration(fmt.Sprintf("%dms", max(hc.asyncMs, 1))),
 		MaintenanceInterval: cfg.Duration(fmt.Sprintf("%dms", max(hc.maintMs, 1))),
-		WorkersCount:        "2",
+		WorkersCount:        cfg.Expression(strconv.Itoa(max(hc.workers, 0))),
 		ReadBufferSize:      hc.readBuf,
+		ShouldWatchChanges:  hc.watchChanges == 1,
+	}
+	if hc.workers <= 0 {
+		config.WorkersCount = "2"
+	}
+	if hc.removeAfterMs > 0 {
+		config.RemoveAfter = cfg.Duration(fmt.Sprintf("%dms", hc.removeAfterMs))
+	}
+	if hc.k8sMeta == 1 {
+		k8smeta.DisableMetaUpdates = true // no cluster: never ask the API server for pod data
+		config.Meta = cfg.MetaTemplates{"k8s_pod": "{{ .pod_name }}", "k8s_namespace": "{{ .namespace }}",
+			"k8s_container": "{{ .container_name }}", "k8s_container_id": "{{ .container_id }}"}
 	}
 	test.NewConfig(config, map[string]int{"gomaxprocs": 2})
 	p.SetInput(&pipeline.InputPluginInfo{
